@@ -31,7 +31,7 @@ Tok == [
 ]
 Families == DOMAIN Tok \cup {"cbor"}
 
-LensQuick == [xml |-> 4, uri |-> 4, json |-> 4, cbor |-> 3, date |-> 4, b64 |-> 5, hex |-> 5, utf8 |-> 5, uint |-> 5,
+LensQuick == [xml |-> 5, uri |-> 4, json |-> 4, cbor |-> 3, date |-> 4, b64 |-> 5, hex |-> 5, utf8 |-> 5, uint |-> 5,
               ip4 |-> 5, ip6 |-> 4]
 LensThorough == [xml |-> 6, uri |-> 5, json |-> 5, cbor |-> 3, date |-> 5, b64 |-> 6, hex |-> 6, utf8 |-> 6, uint |-> 6,
                  ip4 |-> 6, ip6 |-> 5]
@@ -44,19 +44,17 @@ Bytes == IF fam = "cbor"
          ELSE CatTok(Tok[fam], s, 1)
 
 Init == fam \in (DOMAIN Lens) /\ s = <<>>
-Ext(f) == /\ fam = f /\ Len(s) < Lens[f]
-          /\ \E t \in 1..Len(Tok[f]) : s' = Append(s, t)
-          /\ UNCHANGED fam
-ExtXml == Ext("xml")
-ExtUri == Ext("uri")
-ExtJson == Ext("json")
-ExtDate == Ext("date")
-ExtB64 == Ext("b64")
-ExtHex == Ext("hex")
-ExtUtf8 == Ext("utf8")
-ExtUint == Ext("uint")
-ExtIp4 == Ext("ip4")
-ExtIp6 == Ext("ip6")
+(* one named action per family, so that the coverage report shows that every family was enumerated *)
+ExtXml == fam = "xml" /\ Len(s) < Lens.xml /\ (\E t \in 1..Len(Tok.xml) : s' = Append(s, t)) /\ UNCHANGED fam
+ExtUri == fam = "uri" /\ Len(s) < Lens.uri /\ (\E t \in 1..Len(Tok.uri) : s' = Append(s, t)) /\ UNCHANGED fam
+ExtJson == fam = "json" /\ Len(s) < Lens.json /\ (\E t \in 1..Len(Tok.json) : s' = Append(s, t)) /\ UNCHANGED fam
+ExtDate == fam = "date" /\ Len(s) < Lens.date /\ (\E t \in 1..Len(Tok.date) : s' = Append(s, t)) /\ UNCHANGED fam
+ExtB64 == fam = "b64" /\ Len(s) < Lens.b64 /\ (\E t \in 1..Len(Tok.b64) : s' = Append(s, t)) /\ UNCHANGED fam
+ExtHex == fam = "hex" /\ Len(s) < Lens.hex /\ (\E t \in 1..Len(Tok.hex) : s' = Append(s, t)) /\ UNCHANGED fam
+ExtUtf8 == fam = "utf8" /\ Len(s) < Lens.utf8 /\ (\E t \in 1..Len(Tok.utf8) : s' = Append(s, t)) /\ UNCHANGED fam
+ExtUint == fam = "uint" /\ Len(s) < Lens.uint /\ (\E t \in 1..Len(Tok.uint) : s' = Append(s, t)) /\ UNCHANGED fam
+ExtIp4 == fam = "ip4" /\ Len(s) < Lens.ip4 /\ (\E t \in 1..Len(Tok.ip4) : s' = Append(s, t)) /\ UNCHANGED fam
+ExtIp6 == fam = "ip6" /\ Len(s) < Lens.ip6 /\ (\E t \in 1..Len(Tok.ip6) : s' = Append(s, t)) /\ UNCHANGED fam
 ExtCbor == /\ fam = "cbor" /\ Len(s) < Lens.cbor
            /\ IF s = <<>> THEN \E h \in 0..255 : s' = <<h>>
               ELSE \E t \in 1..Len(Tok.cbor2) : s' = Append(s, t)
